@@ -1,14 +1,14 @@
 #!/bin/sh
-# usage: import_seeds.sh <Cnn> : copies /tmp/mut_<Cnn>/<k>/ into seeded/<Cnn>-<next free number>/, removes the agent's worktree
+# usage: [TAG=r5] import_seeds.sh <Cnn> : copies /tmp/mut_<Cnn>$TAG/<k>/ into seeded/<Cnn>-<next free number>/, removes the agent's worktree
 cd /verif
 for p in "$@"; do
-  for src in /tmp/mut_$p/*/; do
+  for src in /tmp/mut_$p$TAG/*/; do
     [ -f "$src/patch.diff" ] || continue
     n=1; while [ -e seeded/$p-$n ]; do n=$((n+1)); done
     mkdir -p seeded/$p-$n && cp "$src"/patch.diff "$src"/notes.txt seeded/$p-$n/ 2>/dev/null
     for f in demo.cpp build.txt; do [ -f "$src/$f" ] && cp "$src/$f" seeded/$p-$n/; done
     echo "seeded/$p-$n <- $src"
   done
-  rm -rf /tmp/mut_$p
-  git -C /repo worktree remove --force /tmp/wt_$p 2>/dev/null
+  rm -rf /tmp/mut_$p$TAG
+  git -C /repo worktree remove --force /tmp/wt_$p$TAG 2>/dev/null
 done
